@@ -309,3 +309,44 @@ def effectively_awaited(g: CFG, call: Node) -> bool:
                 if any(x is call.ast for a in list(outer.args) + [k.value for k in outer.keywords] for x in ast.walk(a)):
                     return True
     return False
+
+
+def connection_propagation(ctx: Ctx, rule: str) -> None:
+    """Objects that act on a broker (Queue, Job, Worker, runner, Message handle, MessageDependency) take the connection to act on as `_connection`
+    and fall back to the process-wide default connection when it is missing. An object that was itself bound to a connection must hand that same
+    connection to every such object it creates - otherwise the created object silently works on the default connection's broker (a worker consuming
+    another connection's queues, a message handle acking on a broker that never held the message)."""
+    takers: dict[str, int] = {}
+    for c in ctx.prog.classes.values():
+        init = ctx.prog.find_method(c.qualname, "__init__")
+        if init is None:
+            continue
+        params = [p.arg for p in init.params()][1:]
+        if "_connection" in params:
+            takers[c.qualname] = params.index("_connection")
+    ctx.floor(rule, len(takers), 5, "classes taking a _connection")
+    n = 0
+    for fn in ctx.prog.iter_functions():
+        if fn.cls is None:
+            continue
+        owner_init = ctx.prog.find_method(fn.cls.qualname, "__init__")
+        bound = owner_init is not None and any(isinstance(a, ast.Attribute) and isinstance(a.ctx, ast.Store) and a.attr in ("_conn", "_connection") for a in ast.walk(owner_init.node))
+        if not bound:
+            continue
+        for c in ast.walk(fn.node):
+            if not isinstance(c, ast.Call):
+                continue
+            d = dotted(c.func)
+            if d is None or "." in d and not d.split(".")[0][0].isupper():
+                continue
+            q = ctx.prog.resolve_name(fn.module, d)
+            if q not in takers or fn.name == "__init__" and q == fn.cls.qualname:
+                continue
+            n += 1
+            v = C.arg(c, takers[q], "_connection")
+            txt = C.utext(fn, v) if v is not None else None
+            ok = txt is not None and ("_conn" in txt or "connection" in txt) and not C.is_const(v, None)
+            ctx.check(ok, rule, fn, f"{d}(..., _connection=...) in {fn.short()}", f"created on the creator's own connection ({txt})",
+                      f"{fn.short()} creates {d}(...) without handing over its own connection (_connection={txt or '<default connection>'}): the new object works on the process-wide default "
+                      "connection's brokers instead of the ones this object was bound to", node=c, instance=f"{fn.short()}: {d} connection")
+    ctx.floor(rule, n, 4, "constructions of connection-bound objects inside connection-bound objects")
